@@ -39,7 +39,7 @@ Reset == /\ IsEvent("reset")
             IN /\ e.need = need /\ e.capb = cap
                /\ e.realloc = (IF realloc THEN 1 ELSE 0)
                /\ (IF realloc THEN e.capa >= need ELSE e.capa = cap)
-               /\ need <= e.maxv                       \* C20: the table never exceeds its cap
+               /\ need <= e.maxv /\ e.capa <= e.maxv    \* C20: neither the live table nor its capacity exceeds the cap
                /\ IF g1 = 0 THEN e.gen = 1 /\ e.cleared = e.capa ELSE e.gen = g1 /\ e.cleared = 0
                /\ cap' = e.capa /\ len' = need /\ gen' = e.gen
          /\ start' = 0 /\ active' = TRUE
